@@ -57,20 +57,10 @@ func eachInstrDeep(f *ssa.Function, fn func(*ssa.Function, ssa.Instruction)) {
 					return
 				}
 				if soleCallSite(sc) != in {
-					// several call sites, all of them inside the body being scanned (one helper for three
-					// identical loops of the anchored function)
-					sites, asValue := callSitesOf(sc)
-					if asValue || len(sites) == 0 {
+					// several call sites (one helper for three identical loops of the anchored function, or a block
+					// shared with another function): the helper's code still runs as part of this body
+					if _, asValue := callSitesOf(sc); asValue {
 						return
-					}
-					for _, st := range sites {
-						r := st.Parent()
-						for r.Parent() != nil {
-							r = r.Parent()
-						}
-						if !roots[r] {
-							return
-						}
 					}
 				}
 				roots[sc] = true
@@ -644,6 +634,9 @@ func exprStrD(v ssa.Value, d int) string {
 	case *ssa.BinOp:
 		return "(" + exprStrD(x.X, d+1) + " " + x.Op.String() + " " + exprStrD(x.Y, d+1) + ")"
 	case *ssa.Convert:
+		if x.Type() == nil { // a synthetic conversion (expandCases)
+			return "conv(" + exprStrD(x.X, d+1) + ")"
+		}
 		return shortName(x.Type().String()) + "(" + exprStrD(x.X, d+1) + ")"
 	case *ssa.ChangeType:
 		return exprStrD(x.X, d+1)
@@ -783,4 +776,89 @@ func cellValue(v ssa.Value) ssa.Value {
 		v = rs[0].Val
 	}
 	return v
+}
+
+// sitesWithin: the static call sites of helper h that lie in the body of root (root, its closures and the NEW helpers
+// scanned with it).
+func sitesWithin(h, root *ssa.Function) []ssa.CallInstruction {
+	body := withNewHelpers(root)
+	var out []ssa.CallInstruction
+	sites, _ := callSitesOf(h)
+	for _, st := range sites {
+		if body[st.Parent()] && st.Parent() != h {
+			out = append(out, st.(ssa.CallInstruction))
+		}
+	}
+	return out
+}
+
+// guardsWithin: the guards in force at in when it executes as part of root's body: its own, plus — when in lies in a NEW
+// helper — those that hold at every call site of the helper inside root's body (guards common to all such sites).
+func guardsWithin(in ssa.Instruction, root *ssa.Function) []guard {
+	gs := guardsOfInstr(in)
+	h := in.Parent()
+	for h != nil && h.Parent() != nil {
+		h = h.Parent()
+	}
+	if h == nil || h == root || !isNewHelper(h) {
+		return gs
+	}
+	sites := sitesWithin(h, root)
+	if len(sites) == 0 {
+		return gs
+	}
+	common := map[string]guard{}
+	for i, st := range sites {
+		cur := map[string]guard{}
+		for _, g := range guardsWithin(st, root) {
+			cur[guardKey(g)] = g
+		}
+		if i == 0 {
+			common = cur
+			continue
+		}
+		for k := range common {
+			if _, ok := cur[k]; !ok {
+				delete(common, k)
+			}
+		}
+	}
+	for _, g := range common {
+		gs = append(gs, g)
+	}
+	return gs
+}
+
+// actualsWithin: what a value stands for inside root's body: v itself, or — when v is a parameter of a NEW helper — the
+// arguments bound to it at the helper's call sites inside root's body.
+func actualsWithin(v ssa.Value, root *ssa.Function) []ssa.Value {
+	prm, ok := v.(*ssa.Parameter)
+	if !ok || prm.Parent() == root || !isNewHelper(prm.Parent()) {
+		return []ssa.Value{v}
+	}
+	var out []ssa.Value
+	for _, st := range sitesWithin(prm.Parent(), root) {
+		args := st.Common().Args
+		for i, fp := range prm.Parent().Params {
+			if fp == prm && i < len(args) && !st.Common().IsInvoke() {
+				out = append(out, actualsWithin(args[i], root)...)
+			}
+		}
+	}
+	if len(out) == 0 {
+		return []ssa.Value{v}
+	}
+	return out
+}
+
+// withMergingPhis: v and the phis that merge v with its siblings (`if tcp { r, err = readA() } else { r, err = readB() }`
+// makes r and err phis of the two calls' results): a test of such a phi is a test of v on the paths that come from v.
+func withMergingPhis(v ssa.Value) []ssa.Value {
+	out := []ssa.Value{v}
+	for _, r := range referrers(v) {
+		if ph, ok := r.(*ssa.Phi); ok {
+			out = append(out, ph)
+		}
+	}
+	return out
 }
